@@ -32,10 +32,15 @@ func RescaleCriterion(c *Criterion, alternatives *[]AlternativeWithCriteria, tar
 
 func scaleCriterion(c *Criterion, a AlternativeWithCriteria, currentRange *utils.ValueRange, scale float64, target *utils.ValueRange) Weight {
 	value := a.CriterionRawValue(c)
+	if scale == 0 {
+		return target.Min
+	}
+	// the share of the current range first: the end of the current range is mapped onto the end of the target exactly
+	// ((max-min) * (T/(max-min)) misses T by one ulp for [0.1, 0.3] and T = 0.9, the value left the target range)
 	if c.Type == Cost {
-		return (currentRange.Max-value)*scale + target.Min
+		return (currentRange.Max-value)/currentRange.Diff()*target.Diff() + target.Min
 	} else {
-		return (value-currentRange.Min)*scale + target.Min
+		return (value-currentRange.Min)/currentRange.Diff()*target.Diff() + target.Min
 	}
 }
 
